@@ -29,6 +29,8 @@ PROBES = [
     '&amp; &lt; &#35; &copy; &nosuch; AT&T &ampx;\n',
     '- a\n- b\n\n  c\n1. x\n   - y\n\n    code\n',
     'hello world\n',
+    # paragraph / lazy lines directly followed by HTML block starts: interruption depends on the active token set
+    'some text\n<div>\nmore text\n\n- item\n<section>\n\n> quote\n<!-- c -->\nend\n\ntext\n<pre>\n',
     'line  \nbreak\\\nsoft\n~~s~~ <http://a.b> \\* $m$ [[w|p]] {{x}}\n',
 ]
 
@@ -106,42 +108,86 @@ def use_key(name, opts, d):
     return json.dumps([name, opts, d], sort_keys=True)
 
 
-def compute_baseline():
-    """Runs in a fresh interpreter (see __main__ below)."""
+def compute_value(key):
+    """One reference value, computed in an interpreter that has done nothing else (see __main__)."""
     from mistletoe import Document
-    out = {'probes': [], 'uses': {}, 'bare': []}
-    for p in PROBES:
-        html, _ = renderers.render('Html', {}, p)
-        out['probes'].append(html)
-    for name, opts in RENDERER_OPS:
-        for d, p in enumerate(PROBES):
-            res, _ = renderers.render(name, opts, p)
-            out['uses'][use_key(name, opts, d)] = res
-    # bare parses last, in a state no renderer has touched since its exit
-    for p in PROBES:
-        out['bare'].append(astdump.dump(Document(p)))
-    from mistletoe.contrib.scheme import Scheme, Program
-    with Scheme() as r:
-        out['scheme'] = repr(r.render(Program(SCHEME_PROGRAM.split('\n'))))
-    import html as _html
-    out['charref'] = _html._charref.pattern
-    out['unescape'] = _html.unescape('&amp &lt;x &notit; &#35;')
-    return out
+    kind = key[0]
+    if kind == 'use':
+        _, name, opts, d = key
+        return renderers.render(name, opts, PROBES[d])[0]
+    if kind == 'bare':
+        return astdump.dump(Document(PROBES[key[1]]))
+    if kind == 'scheme':
+        from mistletoe.contrib.scheme import Scheme, Program
+        with Scheme() as r:
+            return repr(r.render(Program(SCHEME_PROGRAM.split('\n'))))
+    if kind == 'stdlib':
+        import html as _html
+        import mistletoe  # noqa: F401  (importing the library must not change the stdlib either)
+        return [_html._charref.pattern, _html.unescape('&amp &lt;x &notit; &#35;')]
+    raise KeyError(kind)
 
 
 _BASELINE = None
 
 
 def baseline():
+    """Every reference value comes from its own fresh interpreter, so that a leak between two uses
+    cannot contaminate the reference itself."""
     global _BASELINE
     if _BASELINE is None:
+        import concurrent.futures
+        keys = [['use', name, opts, d] for name, opts in RENDERER_OPS for d in range(len(PROBES))]
+        keys += [['bare', d] for d in range(len(PROBES))] + [['scheme'], ['stdlib']]
         envv = dict(os.environ, VERIF_REPO=env.REPO, PYTHONHASHSEED='0', PYTHONDONTWRITEBYTECODE='1')
-        proc = subprocess.run([sys.executable, '-m', 'vf.props.c11', '--baseline'], cwd=env.VERIF_DIR, env=envv,
-                              stdout=subprocess.PIPE, stderr=subprocess.PIPE, timeout=300)
-        if proc.returncode != 0:
-            raise RuntimeError('baseline interpreter failed: ' + proc.stderr.decode()[-2000:])
-        _BASELINE = json.loads(proc.stdout.decode())
+
+        def one(chunk):
+            proc = subprocess.run([sys.executable, '-m', 'vf.props.c11', '--values', json.dumps(chunk)], cwd=env.VERIF_DIR, env=envv,
+                                  stdout=subprocess.PIPE, stderr=subprocess.PIPE, timeout=600)
+            if proc.returncode != 0:
+                raise RuntimeError('baseline interpreter failed: ' + proc.stderr.decode()[-2000:])
+            return json.loads(proc.stdout.decode())
+        # one interpreter per value; each interpreter forks a pristine child per key (fork happens before any parse)
+        chunks = [keys[i::16] for i in range(16)]
+        with concurrent.futures.ThreadPoolExecutor(16) as ex:
+            parts = list(ex.map(one, chunks))
+        vals = {}
+        for p in parts:
+            vals.update(p)
+        out = {'probes': [vals[json.dumps(['use', 'Html', {}, d], sort_keys=True)] for d in range(len(PROBES))],
+               'uses': {use_key(k[1], k[2], k[3]): vals[json.dumps(k, sort_keys=True)] for k in keys if k[0] == 'use'},
+               'bare': [vals[json.dumps(['bare', d], sort_keys=True)] for d in range(len(PROBES))],
+               'scheme': vals[json.dumps(['scheme'], sort_keys=True)]}
+        out['charref'], out['unescape'] = vals[json.dumps(['stdlib'], sort_keys=True)]
+        _BASELINE = out
     return _BASELINE
+
+
+def _values_main(keys):
+    """Runs in a fresh interpreter: each key is evaluated in a forked child that has parsed nothing before."""
+    env.assert_repo_import()
+    out = {}
+    for key in keys:
+        r, w = os.pipe()
+        pid = os.fork()
+        if pid == 0:
+            os.close(r)
+            try:
+                data = json.dumps(compute_value(key))
+            except BaseException as exc:      # noqa
+                data = json.dumps({'__error__': repr(exc)})
+            with os.fdopen(w, 'w') as f:
+                f.write(data)
+            os._exit(0)
+        os.close(w)
+        with os.fdopen(r) as f:
+            data = f.read()
+        os.waitpid(pid, 0)
+        val = json.loads(data)
+        if isinstance(val, dict) and '__error__' in val:
+            raise RuntimeError('reference value %r failed: %s' % (key, val['__error__']))
+        out[json.dumps(key, sort_keys=True)] = val
+    print(json.dumps(out))
 
 
 def token_list_errors():
@@ -499,7 +545,7 @@ class C11(Prop):
     id = 'C11'
     rule = Bounded.rule
     assumptions = (
-        'the reference values come from one fresh interpreter per check run (python -m vf.props.c11 --baseline)',
+        'every reference value comes from its own pristine process (python -m vf.props.c11 --values: fork before any parse), so a leak cannot contaminate the reference',
         'contexts are well bracketed and not nested (the property says "each used as a context manager")',
         'leaks are observable only through the probe battery (12 documents chosen to touch every piece of parser scratch state) and the token lists',
     )
@@ -516,6 +562,5 @@ PROP = C11()
 
 
 if __name__ == '__main__':
-    if '--baseline' in sys.argv:
-        env.assert_repo_import()
-        print(json.dumps(compute_baseline()))
+    if '--values' in sys.argv:
+        _values_main(json.loads(sys.argv[sys.argv.index('--values') + 1]))
